@@ -346,6 +346,142 @@ def shape_case(rng, kind):
     return {"k": "gen", "part": d, "pols": pols}
 
 
+def blocks_case(rng, lo, hi, light=True):
+    """a part made of disjoint repeat blocks (simple repeats, repeats with 1-3 numbered brackets) separated by plain
+    music, with at most one standard navigation form whose marks stand at block edges: between `lo` and `hi` segments.
+    Small bars with one or two notes keep parts of 30-150 segments cheap (the segment ids run beyond 'Z')."""
+    divs = rng.choice([1, 2, 2, 4])
+    bar = 2 * divs
+    want = rng.randint(lo, hi)
+    blocks, nseg, nbars, visits = [], 0, 0, 0
+    p_plain = rng.choice([0.0, 0.2, 0.4])
+    p_volta = rng.choice([0.0, 0.25, 0.5, 1.0])
+    while nseg < want:
+        r = rng.random()
+        if r < p_plain and (not blocks or blocks[-1][0] != "p"):
+            n = rng.choice([1, 1, 2])
+            blocks.append(("p", nbars, nbars + n))
+            nbars += n
+            nseg += 1
+            visits += 1
+        elif rng.random() < p_volta:
+            k = rng.choice([1, 2, 2, 2, 3])
+            nums = _volta_numbers(rng, k)
+            body = rng.choice([1, 1, 2])
+            blocks.append(("v", nbars, nbars + body + k, body, nums))
+            nbars += body + k
+            nseg += 1 + k
+            visits += 2 * sum(len(x.split(",")) for x in nums)
+        else:
+            n = rng.choice([1, 1, 1, 2])
+            blocks.append(("r", nbars, nbars + n))
+            nbars += n
+            nseg += 1
+            visits += 2
+    form = rng.choice(["none", "none", "none", "dc", "dcfine", "ds", "dsfine", "dccoda", "dscoda", "dcmid", "dsmid"])
+    if blocks[-1][0] != "p" and rng.random() < (0.6 if form in ("dc", "dcfine", "ds", "dsfine") else 0.3):
+        blocks.append(("p", nbars, nbars + 1))
+        nbars += 1
+    if rng.random() < 0.15 and blocks[0][0] != "p":
+        # an upbeat-like opening: the first repeat does not start at the beginning
+        blocks = [("p", 0, 1)] + [(b[0], b[1] + 1, b[2] + 1) + tuple(b[3:]) for b in blocks]
+        nbars += 1
+    times = [bar * i for i in range(nbars + 1)]
+    ex = []
+    for b in blocks:
+        if b[0] == "r":
+            ex.append(["Repeat", times[b[1]], times[b[2]], {}])
+        elif b[0] == "v":
+            _, a, e, body, nums = b
+            k = len(nums)
+            for i in range(k):
+                s_ = a + body + i
+                ex.append(["Ending", times[s_], times[s_ + 1], {"number": nums[i]}])
+                if i < k - 1 or k == 1:
+                    ex.append(["Repeat", times[a], times[s_ + 1], {}])
+    # positions a mark may take: block edges and bar lines inside plain music
+    inside = set()
+    for b in blocks:
+        if b[0] != "p":
+            inside.update(range(b[1] + 1, b[2]))
+    pos = [i for i in range(nbars + 1) if i not in inside]
+    mid = [i for i in pos if 0 < i < nbars]
+    plain_ends = set(b[2] for b in blocks if b[0] == "p")
+
+    def jump_at(cands):
+        # preferably after plain music (a jump instruction at the end of a repeated section is a case of its own)
+        pe = [i for i in cands if i in plain_ends]
+        return rng.choice(pe) if pe and rng.random() < 0.6 else rng.choice(cands)
+
+    def below(cands, top, n):
+        c_ = [i for i in cands if i < top]
+        return sorted(rng.sample(c_, n)) if len(c_) >= n else None
+    if form == "dc":
+        ex.append(["DaCapo", times[nbars], None, {}])
+    elif form == "dcfine" and mid:
+        ex += [["Fine", times[rng.choice(mid)], None, {}], ["DaCapo", times[nbars], None, {}]]
+    elif form == "ds":
+        ex += [["Segno", times[rng.choice([i for i in pos if i < nbars])], None, {}], ["DalSegno", times[nbars], None, {}]]
+    elif form == "dsfine" and below(pos, nbars, 2):
+        s_, f_ = below(pos, nbars, 2)
+        ex += [["Segno", times[s_], None, {}], ["Fine", times[f_], None, {}], ["DalSegno", times[nbars], None, {}]]
+    elif form == "dccoda" and len(mid) >= 2:
+        b_ = jump_at(mid[1:])
+        a_, = below(mid, b_, 1)
+        ex += [["ToCoda", times[a_], None, {}], ["DaCapo", times[b_], None, {}], ["Coda", times[b_], None, {}]]
+    elif form == "dscoda" and len(pos) >= 4:
+        b_ = jump_at(pos[2:-1])
+        s_, a_ = below(pos, b_, 2)
+        ex += [["Segno", times[s_], None, {}], ["ToCoda", times[a_], None, {}], ["DalSegno", times[b_], None, {}],
+               ["Coda", times[b_], None, {}]]
+    elif form == "dcmid" and mid:
+        ex.append(["DaCapo", times[jump_at(mid)], None, {}])
+    elif form == "dsmid" and len(pos) >= 3:
+        b_ = jump_at(pos[1:-1])
+        s_, = below(pos, b_, 1)
+        ex += [["Segno", times[s_], None, {}], ["DalSegno", times[b_], None, {}]]
+    else:
+        form = "none"
+    if rng.random() < 0.5:
+        rng.shuffle(ex)  # the order in which the marks were added must not matter for blocks (it does for stacked signs)
+    # the music: one or two notes per bar, some tied over the bar line, now and then a rest
+    notes, nid, prev = [], 0, None
+    for i in range(nbars):
+        cuts = [0, bar] if rng.random() < 0.6 else [0, rng.randint(1, bar - 1), bar]
+        for a_, b_ in zip(cuts[:-1], cuts[1:]):
+            if rng.random() < 0.08:
+                notes.append({"id": "r%d" % nid, "t": times[i] + a_, "dur": b_ - a_, "kind": "rest", "voice": 1, "staff": 1})
+                prev = None
+            else:
+                n = {"id": "n%d" % nid, "t": times[i] + a_, "dur": b_ - a_, "kind": "note", "step": rng.choice(G.STEPS),
+                     "alter": rng.choice([0, 0, 0, 1, -1]), "oct": rng.randint(3, 5), "voice": 1, "staff": 1}
+                if prev is not None and rng.random() < (0.1 if light else 0.25):
+                    n["step"], n["alter"], n["oct"] = prev["step"], prev["alter"], prev["oct"]
+                    prev["tie"] = n["id"]
+                notes.append(n)
+                prev = n
+            nid += 1
+    d = {"id": "P0", "divs": divs, "ts": [[0, 2, 4]], "ks": [[0, rng.randint(-3, 3), "major"]], "clefs": [[0, 1, "G", 2, 0]],
+         "notes": notes, "measures": [[times[i], times[i + 1], i + 1] for i in range(nbars)], "extras": ex, "qd": [], "spans": []}
+    if rng.random() < 0.3:
+        t_ = times[rng.randint(1, nbars - 1)] if nbars > 1 else 0
+        d["ts"].append([t_, 2, 4])  # restated signature inside
+    if rng.random() < 0.25:
+        d["warm"] = rng.choice([1, 2, 4, 8, 16, 31, 64, 95])  # (bit 5, the "full" readers, costs 2 s a build)
+    nav = form != "none"
+    pols = [{"pol": "max", "upd": rng.random() < 0.5, "il": True, "pick": [0, 0]},
+            {"pol": "min", "upd": False, "il": True, "pick": [0, 0]}]
+    if nav:
+        pols.append({"pol": "max", "upd": rng.random() < 0.5, "il": False, "pick": [0, 0]})
+    branching = sum(1 if b[0] == "r" else 2 * len(b[4]) for b in blocks if b[0] != "p")
+    if branching <= (3 if nav else 6):
+        pols.append({"pol": "all", "upd": rng.random() < 0.5, "il": True, "pick": [rng.random(), rng.random()]})
+    if rng.random() < 0.1:
+        pols.append({"pol": "score", "upd": True, "il": rng.random() < 0.5, "pick": [0, 0]})
+    return {"k": "gen", "part": d, "pols": pols, "prereg": rng.random() < 0.1, "blocks": len(blocks),
+            "visits": visits * (2 if nav else 1)}
+
+
 def cases(rng, tier):
     for fn in FIXTURES:
         for upd in (False, True):
@@ -354,10 +490,19 @@ def cases(rng, tier):
                 {"pol": "max", "upd": upd, "il": False, "pick": [0, 0]},
                 {"pol": "min", "upd": False, "il": True, "pick": [0, 0]},
                 {"pol": "all", "upd": upd, "il": True, "pick": [0.3, 0.9]}]}
+    # parts with many segments (ids beyond 'Z'): few of them, they are the expensive ones
+    many = {"quick": 8, "thorough": 120, "search": 160}.get(tier, 8)
+    for i in range(many):
+        if tier != "quick" and i % 6 == 0:
+            yield blocks_case(rng, 61, 150)
+        else:
+            yield blocks_case(rng, 27, 60)
     n = {"quick": 110, "thorough": 3000, "search": 4000}.get(tier, 110)
     for i in range(n):
         r = rng.random()
-        if r < 0.12:
+        if r < 0.14:
+            yield blocks_case(rng, 2, 14, light=False)
+        elif r < 0.24:
             yield shape_case(rng, "simple")
         elif r < 0.24:
             yield shape_case(rng, "volta")
@@ -853,6 +998,161 @@ def volta_layout(L):
     return a, [(s, e) for s, e, _ in ends], [ns for _, _, ns in ends]
 
 
+NAV_KEYS = ("codas", "tocodas", "dacapos", "fines", "segnos", "dalsegnos")
+
+
+def block_structure(L):
+    """the repeat structure read as a sequence of pairwise disjoint blocks in time order, from the musical description
+    only (no segment ids, no segment table):
+      ('r', s, e)                               a simple repeat |: ... :|
+      ('v', a, e, [(s, e), ...], [[n, ...], ...])   |: body [1. ... :| [2. ... (k consecutive brackets carrying 1..N in order,
+                                                a backward repeat sign after every bracket but the last)
+    None when the repeats / endings are not of this form (nested, overlapping, stray or unnumbered brackets, ...)."""
+    reps = list(L["repeats"])
+    if len(set(reps)) != len(reps):
+        return None
+    ends = sorted(L["endings"])
+    groups = []
+    for v in ends:
+        if groups and groups[-1][-1][1] == v[0]:
+            groups[-1].append(v)
+        else:
+            groups.append([v])
+    blocks = []
+    used = set()
+    for g in groups:
+        if any(not s < e for s, e, _ in g):
+            return None
+        flat = [n for _, _, ns in g for n in ns]
+        if flat != list(range(1, len(flat) + 1)) or len(flat) > 9 or any(not ns for _, _, ns in g):
+            return None
+        want_ends = [e for _, e, _ in g[:-1]] if len(g) > 1 else [g[0][1]]
+        mine = [r for r in reps if r[1] in want_ends]
+        if sorted(r[1] for r in mine) != sorted(want_ends) or len(set(r[0] for r in mine)) != 1:
+            return None
+        a = mine[0][0]
+        if not a < g[0][0]:
+            return None
+        used.update(mine)
+        blocks.append(("v", a, g[-1][1], [(s, e) for s, e, _ in g], [list(ns) for _, _, ns in g]))
+    for r in reps:
+        if r not in used:
+            if not r[0] < r[1]:
+                return None
+            blocks.append(("r", r[0], r[1]))
+    blocks.sort(key=lambda b: (b[1], b[2]))
+    for b, c in zip(blocks[:-1], blocks[1:]):
+        if not b[2] <= c[1]:
+            return None
+    if blocks and not (L["first"] <= blocks[0][1] and blocks[-1][2] <= L["last"]):
+        return None
+    # no bracket edge / repeat sign of one block inside another is possible now; navigation marks may stand at block
+    # edges and in the music between blocks only
+    for k in NAV_KEYS:
+        for t in L[k]:
+            if any(b[1] < t < b[2] for b in blocks):
+                return None
+    return blocks
+
+
+def play_blocks(blocks, x, y, full):
+    """the stretches of time played from x to y (both at block edges or between blocks): every repeated section
+    twice and every bracket group once per ending number with the bracket carrying that number (full), or every section
+    once with the last ending (not full)"""
+    out, t = [], x
+    for b in blocks:
+        if b[1] < x or b[2] > y:
+            continue
+        if t < b[1]:
+            out.append((t, b[1]))
+        if b[0] == "r":
+            out += [(b[1], b[2])] * (2 if full else 1)
+        else:
+            _, a, e, spans, nums = b
+            of = {n: spans[i] for i, ns in enumerate(nums) for n in ns}
+            top = max(of)
+            for n in (range(1, top + 1) if full else [top]):
+                out += [(a, spans[0][0]), of[n]]
+        t = b[2]
+    if t < y:
+        out.append((t, y))
+    return [st for st in out if st[0] < st[1]]
+
+
+def nav_form(L):
+    """the standard navigation forms (see nav_layout), whatever the repeats: (name, jump time, destination, stop, coda)"""
+    if L["first"] != 0 or not L["first"] < L["last"]:
+        return None
+    end = L["last"]
+    dc, ds, sg, fi, co, tc = L["dacapos"], L["dalsegnos"], L["segnos"], L["fines"], L["codas"], L["tocodas"]
+    if dc == [end] and not (ds or sg or co or tc) and len(fi) <= 1:
+        if fi and not 0 < fi[0] < end:
+            return None
+        return ("dc-fine" if fi else "dc"), end, 0, (fi[0] if fi else end), None
+    if ds == [end] and len(sg) == 1 and not (dc or co or tc) and len(fi) <= 1 and 0 <= sg[0] < end:
+        if fi and not sg[0] < fi[0] < end:
+            return None
+        return ("ds-fine" if fi else "ds"), end, sg[0], (fi[0] if fi else end), None
+    if len(dc) == 1 and 0 < dc[0] < end and not (ds or sg or co or tc or fi):
+        return "dc-mid", dc[0], 0, end, None
+    if len(ds) == 1 and len(sg) == 1 and 0 <= sg[0] < ds[0] < end and not (dc or co or tc or fi):
+        return "ds-mid", ds[0], sg[0], end, None
+    if len(dc) == 1 and co == dc and len(tc) == 1 and not (ds or sg or fi) and 0 < tc[0] < dc[0] < end:
+        return "dc-coda", dc[0], 0, tc[0], dc[0]
+    if len(ds) == 1 and co == ds and len(tc) == 1 and len(sg) == 1 and not (dc or fi) and 0 <= sg[0] < tc[0] < ds[0] < end:
+        return "ds-coda", ds[0], sg[0], tc[0], ds[0]
+    return None
+
+
+def expected_blocks(L, pol, il):
+    """(name, stretches of time in playing order) for a part made of disjoint repeat blocks and at most one standard
+    navigation form with its marks outside the blocks, else None.
+      minimal                     every section once with the last ending, straight through (a jump instruction is a repeat)
+      maximal                     up to the jump instruction everything in full, the jump is obeyed once, then from the
+                                  destination to the Fine / To Coda (and from the Coda to the end) in full again when
+                                  leaps are ignored (`ignore_leaps=True`: "repetitions after a leap are unfolded fully"),
+                                  without repeats and with the last endings otherwise"""
+    blocks = block_structure(L)
+    if blocks is None or not L["first"] < L["last"]:
+        return None
+    marks = any(L[k] for k in NAV_KEYS)
+    first, last = L["first"], L["last"]
+    if not marks:
+        return "blocks", play_blocks(blocks, first, last, pol != "min")
+    nf = nav_form(L)
+    if nf is None:
+        return None
+    name, jump, dest, stop, coda = nf
+    if pol == "min":
+        return "blocks-" + name, play_blocks(blocks, first, last, False)
+    # arrangements the notation (and the property) leaves open, or in which the code's recognition of a leap by the
+    # types of the two segments is known to be fooled (PARTIAL): compared with the model only
+    bt = sorted(set([first, last] + [t for b in blocks for t in ([b[1], b[2]] if b[0] == "r" else [b[1]] + [x for sp in b[3] for x in sp])]
+                    + [t for k in NAV_KEYS for t in L[k]]))
+    if not any(dest < t < jump for t in bt):
+        return None  # the instruction ends the very segment it jumps to (a one-segment loop)
+    if il and any(b[2] == jump for b in blocks):
+        return None  # is the section that ends at the D.C. / D.S. played twice on the way through after the jump?
+    landing = set([0] + L["segnos"] + L["codas"])
+    taking_off = set([jump] + L["tocodas"])
+    if any(b[2] in taking_off and b[1] in landing for b in blocks):
+        return None  # a repeat from the segment with the instruction back to a jump destination is taken for the leap
+    after = bool(il)
+    out = play_blocks(blocks, first, jump, True) + play_blocks(blocks, dest, stop, after)
+    if coda is not None:
+        out += play_blocks(blocks, coda, last, after)
+    return "blocks-" + name, out
+
+
+def atoms_of(stretches, bt):
+    """the stretches cut at the boundary times bt"""
+    out = []
+    for x, y in stretches:
+        cut = [x] + [t for t in bt if x < t < y] + [y]
+        out += list(zip(cut[:-1], cut[1:]))
+    return out
+
+
 def family_of(L):
     """which layout family of the Lean theorems (Props/C09Ext.lean) the part belongs to, decided from the musical
     description (independently of the Lean definitions `chainLayout`, `mvLayout`, `dcFineLayout`, ... - the driver's
@@ -979,6 +1279,8 @@ def _evaluate(desc):
     _, e = guarded(lambda: S.add_segments(p2))
     ev.requests.append("seg " + ltok)
     segtab = None
+    bt = sorted(set([L["first"], L["last"]] + [t for r in L["repeats"] for t in r] + [t for v in L["endings"] for t in v[:2]]
+                    + [t for k in NAV_KEYS for t in L[k]]))
     if e is not None:
         ev.impl.append("err")
     else:
@@ -987,8 +1289,6 @@ def _evaluate(desc):
                                                      W.f_list(seg_index, s.to), W.f_list(seg_index, s.await_to), s.type), segs))
         segtab = {s.id: (s.start.t, s.end.t) for s in segs}
         # boundaries partition [first, last]
-        bt = sorted(set([L["first"], L["last"]] + [t for r in L["repeats"] for t in r] + [t for v in L["endings"] for t in v[:2]]
-                        + [t for k in ("codas", "tocodas", "dacapos", "fines", "segnos", "dalsegnos") for t in L[k]]))
         if [(s.start.t, s.end.t) for s in segs] != list(zip(bt[:-1], bt[1:])):
             ev.oracle.append("segments: the segments are not the intervals between consecutive boundaries %r" % (bt,))
 
@@ -1003,6 +1303,7 @@ def _evaluate(desc):
     simple = simple_layout(L)
     volta = volta_layout(L)
     nav = nav_layout(L)
+    blk = expected_blocks(L, "max", True)
 
     for pi, pol in enumerate(desc["pols"]):
         nr, ar, il = FLAGS[pol["pol"]](pol)
@@ -1017,10 +1318,11 @@ def _evaluate(desc):
         if e is not None:
             ev.impl.append("err")
             plist = None
-            if (simple is not None or volta is not None or not nontrivial or nav is not None) and L["first"] < L["last"]:
+            if (simple is not None or volta is not None or not nontrivial or nav is not None or blk is not None) and L["first"] < L["last"]:
                 ev.oracle.append("raises: %s: get_paths raises %s on a part with %s" % (
                     tagname, type(e).__name__, "simple repeats" if simple is not None else "a standard volta group" if volta is not None
-                    else "the standard navigation form " + nav[0] if nav is not None else "no repeat structure"))
+                    else "the standard navigation form " + nav[0] if nav is not None
+                    else "disjoint repeats / bracket groups (%s)" % blk[0] if blk is not None else "no repeat structure"))
         else:
             plist = [list(p.path) for p in paths]
             ev.impl.append(W.f_list(lambda p: W.f_list(seg_index, p), plist))
@@ -1102,6 +1404,20 @@ def _evaluate(desc):
                     ev.oracle.append("navigation-%s: %s: the maximal path is %s, expected %s (%s)" % (
                         nav[0], tagname, "-".join(plist[0]) if plist else None, "-".join(want),
                         ", then ".join("%d..%d" % st_ for st_ in nav[1])))
+            if pol["pol"] in ("max", "score", "min") and psegtab and blk is not None:
+                # disjoint repeats and bracket groups, with at most one standard navigation form between them: the
+                # playing order follows from the notation alone (times, not segment ids)
+                name, stretches = expected_blocks(L, "min" if pol["pol"] == "min" else "max", il)
+                want = atoms_of(stretches, bt)
+                got = [psegtab.get(x) for x in plist[0]] if plist else None
+                if got != want:
+                    k_ = 0
+                    while got and k_ < len(got) and k_ < len(want) and got[k_] == want[k_]:
+                        k_ += 1
+                    key_ = "blocks-navigation" if name != "blocks" else "blocks-minimal" if pol["pol"] == "min" else "blocks-maximal"
+                    ev.oracle.append("%s: %s: %s, %d segments: the path plays %d stretches of time, the notation says %d; they part after %d: "
+                                     "played %r, notated %r" % (key_, tagname, name, len(psegtab), len(got or []), len(want), k_,
+                                                                (got or [])[k_:k_ + 3], want[k_:k_ + 3]))
             if not nontrivial and plist != [["A"]]:
                 ev.oracle.append("identity: no repeat structure but paths are %r" % (plist,))
 
